@@ -255,12 +255,12 @@ func (in *Interp[K, V]) RunScript(sc Script, out func(Line), watchdog time.Durat
 	for i, st := range sc.Steps {
 		if i == sc.LogFrom {
 			// the world reached by the unlogged prefix
-			out(Line{T: "reset", SID: sc.ID, W: last, Args: []any{}})
+			out(Line{T: "reset", SID: sc.ID, W: last, Args: []any{}, R: map[string]any{"t": "none"}})
 		}
 		var line, ok = in.guarded(sc.ID, st, watchdog)
 		if i >= sc.LogFrom || !ok {
 			if i < sc.LogFrom {
-				out(Line{T: "reset", SID: sc.ID, W: last, Args: []any{}})
+				out(Line{T: "reset", SID: sc.ID, W: last, Args: []any{}, R: map[string]any{"t": "none"}})
 			}
 			out(line)
 		}
